@@ -89,6 +89,17 @@ def run_e2e(args):
                                 rec["runs"].append({"iface": iface, "split": split, "T": T, "handle": handle, "got": got})
                                 if iface == "concurrent" and p == 0:
                                     rec["batches"].append({"T": T, "paths": paths, "seen": [list(b) for b in batches_seen]})
+                        # "on every pass": the repeating unshuffled stream, several passes long, with a read parallelism
+                        # that does not divide the number of shards
+                        if handle == "same":
+                            N = len(order[split])
+                            for T in ([1] if iface == "sync" else [nsh + 1, 2 * nsh + 1]):
+                                take = 3 * N + 1
+                                try:
+                                    got, _ = I.run_iface(d, iface, split, shuffle=0, T=T, repeat=True, take=take)
+                                except Exception as e:  # noqa: BLE001
+                                    got = f"{type(e).__name__}: {str(e)[:150]}"
+                                rec["runs"].append({"iface": iface, "split": split, "T": T, "handle": "repeat", "got": got, "take": take})
         finally:
             DI.ThreadPoolExecutor = RealTPE
             for cls, o in origs.items():
@@ -161,6 +172,14 @@ def run(ctx):
                                f"split {split}: session {si} wrote {so[split]} but the shards enumerate them as {sub}", {"case": r["case"], "split": split})
             for run_ in [x for x in r["runs"] if x["split"] == split]:
                 nruns += 1
+                if run_["handle"] == "repeat":
+                    want = ((enum or []) * 4)[:run_["take"]]
+                    if run_["got"] != want:
+                        ctx.report({"kind": "sequence-repeat", "iface": run_["iface"]},
+                                   f"{r['case']['fmt']} {run_['iface']} T={run_['T']} repeating stream of split {split}: {str(run_['got'])[:200]} is not the one-pass sequence {str(enum)[:100]} repeated",
+                                   {"case": r["case"], "run": run_, "expected": want})
+                    distinct.add((r["case"]["fmt"], r["case"]["mode"], run_["iface"], min(run_["T"], 4), "repeat"))
+                    continue
                 if run_["got"] != enum:
                     ctx.report({"kind": "sequence", "iface": run_["iface"]},
                                f"{r['case']['fmt']} {run_['iface']} T={run_['T']} ({run_['handle']}) split {split}: {str(run_['got'])[:200]} != enumeration order {str(enum)[:120]}",
@@ -182,7 +201,7 @@ def run(ctx):
     ctx.cov.update({
         "evaluations": nruns + len(bobs), "distinct_nontrivial": len(distinct), "traces_validated_against_impl": len(bobs) - len(corr_bad),
         "rule": "single-session datasets (splits interleaved) and single multi-writer calls; every interface with shuffle=0, repeat=False, "
-                "file_parallelism in {1,2,#shards-1,#shards,#shards+2}, two passes + reopened handle, seeded loader delays; "
+                "file_parallelism in {1,2,#shards-1,#shards,#shards+2}, two passes + reopened handle, seeded loader delays; plus the repeating stream (3 passes + 1) with file_parallelism #shards+1 and 2*#shards+1; "
                 "distinct = (format, write mode, interface, T class, handle)",
         "samples": [{"case": r["case"], "order": r["order"], "first_run": r["runs"][:1]} for r in recs[:2]],
         "input_distribution": {"by_iface": collections.Counter(x["iface"] for r in recs for x in r["runs"]),
